@@ -106,6 +106,16 @@ pub fn grid_fact(ev: Ev) -> Vec<String> {
             }
         }
     }
+    // … and at decimal distances 10^-j (what a Decimal holds exactly and a double does not): the reflection formula
+    // magnifies the error of its constant pi by |x| / distance
+    if ev == Ev::Dec {
+        for n in [1i32, 2, 3, 5, 10, 20, 50, 100, 149] {
+            for j in [3usize, 6, 8, 9, 10, 11, 12, 13, 14, 15, 16] {
+                g.push(format!("(-{}.{}1)", n, "0".repeat(j - 1)));
+                g.push(format!("(-{}.{})", n - 1, "9".repeat(j)));
+            }
+        }
+    }
     g
 }
 
